@@ -26,8 +26,9 @@ func init() {
 				"C20.pass (client methods hand call() their own parameter and return the reply variable call() filled; server methods hand the handler the decoded argument and store the handler's result into the reply, returning the handler's error; InmemProxy passes through; SocketAppProxyServer.SubmitTx forwards the decoded slice), " +
 				"C20.done (every asynchronous rpc call is waited for on its own completion channel: the done argument of rpc.Client.Go is nil or made in the same attempt, and every receive from a chan *rpc.Call is on the Done channel of the call issued in that attempt — a channel shared by the attempts of the retry loop lets a late completion of a timed-out attempt end the next wait with a nil error and an empty reply). " +
 				"C20.shape (every field of every type crossing the JSON-RPC boundary is exported and untagged, or is a listed cache field; payload fields are []byte / [][]byte, i.e. base64 on the wire — binary safe). " +
+				"C20.copy (what the in-process proxy queues for the node is a fresh copy of the submitted bytes — `append(tx[:0], tx...)` is the caller's buffer, not a copy; shared with C05.copy). " +
 				"NOT decided: ordering per client connection, behaviour of net/rpc under drops at arbitrary instants, duplicate delivery on retry after a timeout."},
-		Rules: []ruleFunc{c20err, c20pass, c20shape, c20done},
+		Rules: []ruleFunc{c20err, c20pass, c20shape, c20done, func(p *Prog, r *Report) { submitCopyRule(p, r, "C20.copy") }},
 	})
 }
 
@@ -319,8 +320,9 @@ func passesParam(v ssa.Value, fn *ssa.Function, idx int) bool {
 	return len(sts) == 1 && sts[0].Addr == ssa.Value(al) && sts[0].Val == par
 }
 
-func c20pass(p *Prog, r *Report) {
-	const rule = "C20.pass"
+func c20pass(p *Prog, r *Report) { passRule(p, r, "C20.pass") }
+
+func passRule(p *Prog, r *Report, rule string) {
 	r.Rule(rule, 10, "arguments and replies pass through the proxies unchanged")
 	// client side
 	for _, m := range [][3]string{{PAPP, "SocketAppProxyClient", "CommitBlock"}, {PAPP, "SocketAppProxyClient", "GetSnapshot"}, {PAPP, "SocketAppProxyClient", "Restore"}, {PAPP, "SocketAppProxyClient", "OnStateChanged"}, {PBAB, "SocketBabbleProxyClient", "SubmitTx"}} {
